@@ -199,8 +199,9 @@ fn generate_item_parser_call(
             } else {
                 let mut arrayelements = Vec::new();
                 for arrayidx in 0..*dim {
+                    // the data may have been parsed using a different definition with a shorter array
                     arrayelements.push(generate_item_parser_call(
-                        &quote! {arrayitems[#arrayidx]},
+                        &quote! {arrayitems.get(#arrayidx).unwrap_or_else(|| &a2lfile::GenericIfData::None)},
                         &arraytype.typename,
                         &arraytype.basetype,
                     ));
@@ -237,7 +238,7 @@ fn generate_item_location(item_ident: &TokenStream, basetype: &BaseType) -> Toke
                 let mut arraylocations = Vec::new();
                 for arrayidx in 0..*dim {
                     arraylocations.push(generate_item_location(
-                        &quote! {arrayitems[#arrayidx]},
+                        &quote! {arrayitems.get(#arrayidx).unwrap_or_else(|| &a2lfile::GenericIfData::None)},
                         &arraytype.basetype,
                     ));
                 }
